@@ -1,2 +1,129 @@
-(* Model/Regions.v — executable model; no proofs here. *)
+(* Model/Regions.v — executable model of package regions (regions.go); no proofs here.
+
+   Coordinates are Go ints = Z; interval serial numbers, slice indices and fuel are nat.
+
+   Modelling notes (each is justified by a theorem in Proofs/RegionsProofs*.v):
+   * sort.Slice is not stable and its algorithm is unspecified; it is modelled by an
+     insertion sort by [event_less].  [event_less] is a strict total order on events,
+     so every permutation that satisfies sort.Slice's contract (no later element is
+     less than an earlier one) is this very list ([sort_events_unique]).
+   * the map[int]struct{} [idxs] is modelled by the ascending duplicate-free list of
+     its keys, so that [keys(idxs)] (collect + sort.Ints) is the list itself; nil and
+     the empty slice are both [[]] (the harness projects nil = empty).
+   * [intervals = append(intervals, x)] in the loop is the emission of one more element
+     of the produced list (the sweep is written as a producer).
+   * sort.Search is its actual loop, with fuel; an index outside the slice or running
+     out of fuel would be [Panic] (shown impossible). *)
 From Bio Require Import Base.
+Open Scope Z_scope.
+
+Record event : Type := Ev { e_idx : nat; e_pos : Z; e_start : bool }.
+
+(* interval{start, idxs} *)
+Definition interval : Type := (Z * list nat)%type.
+Definition index : Type := list interval.
+
+(* the loop [for i := range starts]: intervals with start >= end are skipped *)
+Fixpoint events_from (i : nat) (starts ends : list Z) : list event :=
+  match starts, ends with
+  | s :: ss, e :: es =>
+    if s >=? e then events_from (S i) ss es
+    else Ev i s true :: Ev i e false :: events_from (S i) ss es
+  | _, _ => []
+  end.
+
+Definition events (starts ends : list Z) : list event := events_from 0 starts ends.
+
+(* eventLess *)
+Definition event_less (a b : event) : bool :=
+  if negb (e_pos a =? e_pos b) then e_pos a <? e_pos b
+  else if negb (Bool.eqb (e_start a) (e_start b)) then negb (e_start a)  (* end before start *)
+  else (e_idx a <? e_idx b)%nat.
+
+Fixpoint insert_event (e : event) (l : list event) : list event :=
+  match l with
+  | [] => [e]
+  | x :: r => if event_less e x then e :: x :: r else x :: insert_event e r
+  end.
+
+Fixpoint sort_events (l : list event) : list event :=
+  match l with
+  | [] => []
+  | e :: r => insert_event e (sort_events r)
+  end.
+
+(* idxs[k] = struct{}{} and delete(idxs, k) on the sorted key list *)
+Fixpoint set_add (k : nat) (l : list nat) : list nat :=
+  match l with
+  | [] => [k]
+  | z :: r => if (k <? z)%nat then k :: z :: r
+              else if (k =? z)%nat then z :: r
+              else z :: set_add k r
+  end.
+
+Definition set_remove (k : nat) (l : list nat) : list nat :=
+  filter (fun z => negb (z =? k)%nat) l.
+
+(* the sweep [for i, e := range events]; [first] is [i == 0]; the case [[]] is the
+   final append after the loop *)
+Fixpoint sweep (evs : list event) (first : bool) (pos : Z) (idxs : list nat) : list interval :=
+  match evs with
+  | [] => [(pos, idxs)]
+  | e :: r =>
+    let pos1 := if first then e_pos e else pos in
+    let idxs' := if e_start e then set_add (e_idx e) idxs else set_remove (e_idx e) idxs in
+    if negb (e_pos e =? pos1)
+    then (pos1, idxs) :: sweep r false (e_pos e) idxs'
+    else sweep r false pos1 idxs'
+  end.
+
+(* var pos int; idxs := map[int]struct{}{} *)
+Definition breakpoints (evs : list event) : index := sweep evs true 0 [].
+
+Definition new_index (starts ends : list Z) : outcome index :=
+  if (length starts =? length ends)%nat
+  then Ok (breakpoints (sort_events (events starts ends)))
+  else Panic.
+
+(* sort.Search(n, func(j) bool { return idx[j].start > x }):
+     i, j := 0, n
+     for i < j { h := int(uint(i+j) >> 1); if !f(h) { i = h + 1 } else { j = h } }
+     return i *)
+Fixpoint search_loop (fuel : nat) (ix : index) (x : Z) (i j : nat) : outcome nat :=
+  match fuel with
+  | O => Panic
+  | S fuel' =>
+    if (i <? j)%nat then
+      let h := Nat.div2 (i + j) in
+      match nth_error ix h with
+      | None => Panic                                (* index out of range *)
+      | Some iv =>
+        if negb (fst iv >? x) then search_loop fuel' ix x (S h) j
+        else search_loop fuel' ix x i h
+      end
+    else Ok i
+  end.
+
+Definition search (ix : index) (x : Z) : outcome nat :=
+  search_loop (S (length ix)) ix x 0%nat (length ix).
+
+(* Index.At *)
+Definition at_ (ix : index) (x : Z) : outcome (list nat) :=
+  obind (search ix x) (fun a =>
+    match a with
+    | O => Ok []
+    | S a' => match nth_error ix a' with
+              | Some iv => Ok (snd iv)            (* cp(...) : same content *)
+              | None => Panic
+              end
+    end).
+
+Fixpoint all_ok {A} (l : list (outcome A)) : outcome (list A) :=
+  match l with
+  | [] => Ok []
+  | o :: r => obind o (fun a => obind (all_ok r) (fun r' => Ok (a :: r')))
+  end.
+
+(* NewIndex(starts, ends) followed by At(q) for each query *)
+Definition regions_at (starts ends queries : list Z) : outcome (list (list nat)) :=
+  obind (new_index starts ends) (fun ix => all_ok (map (at_ ix) queries)).
